@@ -1,0 +1,46 @@
+//! Verification hooks. Compiled only with `--cfg kira_verif`; never part of
+//! a normal build.
+//!
+//! A hook is a *yield point*: a named place between two accesses to state
+//! shared with another thread. A test harness can install a callback that
+//! parks the calling thread there, which lets a deterministic scheduler
+//! enumerate interleavings of the gameplay, audio and decoder threads.
+//! Without an installed callback every yield point returns immediately.
+
+use std::sync::{
+	atomic::{AtomicUsize, Ordering},
+	OnceLock,
+};
+
+type Hook = Box<dyn Fn(&'static str) + Send + Sync>;
+
+static HOOK: OnceLock<Hook> = OnceLock::new();
+static STREAM_RING_CAPACITY: AtomicUsize = AtomicUsize::new(0);
+
+/// Installs the yield-point callback (once per process).
+pub fn set_hook(hook: Hook) {
+	let _ = HOOK.set(hook);
+}
+
+/// A yield point named `site`.
+#[inline]
+pub fn point(site: &'static str) {
+	if let Some(hook) = HOOK.get() {
+		hook(site);
+	}
+}
+
+/// Overrides the capacity of the frame ring of streaming sounds created
+/// afterwards (0 restores the built-in capacity).
+pub fn set_stream_ring_capacity(capacity: usize) {
+	STREAM_RING_CAPACITY.store(capacity, Ordering::SeqCst);
+}
+
+/// The capacity to use for a streaming sound's frame ring.
+#[must_use]
+pub fn stream_ring_capacity(default: usize) -> usize {
+	match STREAM_RING_CAPACITY.load(Ordering::SeqCst) {
+		0 => default,
+		capacity => capacity,
+	}
+}
